@@ -1,0 +1,28 @@
+//go:build verif
+
+package sender
+
+import (
+	"github.com/resonatehq/resonate/internal/aio"
+	"github.com/resonatehq/resonate/internal/metrics"
+	"github.com/resonatehq/resonate/pkg/receiver"
+)
+
+// NewVerifWorker builds a SenderWorker over the given aio, target table
+// and plugins. It exists only for the external verification harness
+// (build tag "verif"), which needs to run the real Process with capture
+// plugins.
+func NewVerifWorker(a aio.AIO, metrics *metrics.Metrics, targets map[string]*receiver.Recv, plugins ...aio.Plugin) *SenderWorker {
+	w := &SenderWorker{
+		plugins: map[string]aio.Plugin{},
+		targets: targets,
+		aio:     a,
+		metrics: metrics,
+	}
+
+	for _, plugin := range plugins {
+		w.AddPlugin(plugin)
+	}
+
+	return w
+}
